@@ -101,14 +101,17 @@ def first_diff(a, b):
 def component_tie(ctx, h, drv, cases):
     t0 = time.time()
     out_c, err_c = run_cases(h, cases)
-    out_m, err_m = run_cases(drv, cases)
+    if drv:
+        out_m, err_m = run_cases(drv, cases)
+    else:                                  # no model: the property oracle on the C output still runs
+        out_m, err_m = list(out_c), []
     ctx.log("component tie: %d cases, C+model in %.1fs" % (len(cases), time.time() - t0))
     tie_bad = []
     prop_bad = []
     kinds = {}
     nontriv = 0
-    stats = dict(dirs=0, dirs_multi_header=0, dirs_ext=0, dirs_basic=0, headers=0, runs_of_256=0,
-                 meta_multi_block=0, compressed_blocks_seen=0, refused_entries=0)
+    stats = dict(dirs=0, dirs_multi_header=0, dirs_ext=0, dirs_basic=0, index_entries=0,
+                 meta_multi_block=0, refused_entries=0)
     for rc, err, idx in err_c:
         c = cases[idx[0]]
         ctx.violation("harness-crash", "component harness died (rc=%d): %s" % (rc, err[-500:]),
@@ -138,7 +141,7 @@ def component_tie(ctx, h, drv, cases):
                     stats["dirs"] += 1
                     if p[1] == "8":
                         stats["dirs_ext"] += 1
-                        stats["headers"] += len(p) - 9
+                        stats["index_entries"] += len(p) - 9
                         if len(p) - 9 > 1:
                             stats["dirs_multi_header"] += 1
                     else:
@@ -270,7 +273,41 @@ def classify(msg):
     return re.sub(r"[^A-Za-z]+", "-", m)[:70].strip("-")
 
 
-def tool_search(ctx, tools, specs):
+def numbering_tie(ctx, drv, specs, results):
+    """inode numbers of the image = NumModel.numbering on the tree (specs without hard links)"""
+    todo = []
+    for spec, r in zip(specs, results):
+        if r.get("inos") and not r["bad"]:
+            s, paths = toolgen.encode_tree(toolgen.tree_of_spec(spec))
+            todo.append((spec, r, s, paths))
+    if not todo:
+        return dict(images=0, nodes=0, mismatches=0)
+    rc, out, err = _run_chunk(drv, "".join("N %s\n" % t[2] for t in todo))
+    bad = 0
+    nodes = 0
+    for (spec, r, s, paths), line in zip(todo, out):
+        model = {}
+        for w in line.split()[1:]:
+            p, n = w.rsplit(":", 1)
+            ip = tuple(int(x) for x in p.split(".")) if p else ()
+            model[b"/".join(paths[ip])] = int(n)
+        nodes += len(model)
+        if model != r["inos"]:
+            bad += 1
+            if bad == 1:
+                diff = [(k, model.get(k), r["inos"].get(k)) for k in sorted(set(model) | set(r["inos"]))
+                        if model.get(k) != r["inos"].get(k)][:5]
+                ctx.violation("tie-inode-numbering",
+                              "correspondence NumModel.numbering vs fstree_post_process broken (%s, %s tree): "
+                              "path, model, image: %r (the image passes the validator: numbers are still dense and "
+                              "children precede parents as far as the validator can tell)" % (spec["tool"], spec["shape"], diff),
+                              dict(kind="tool", spec=spec, differences=[(k.decode("latin-1"), a, b) for k, a, b in diff],
+                                   correspondence="coq/C03/NumModel.v numbering = inode numbers in the image"),
+                              no_input=True)
+    return dict(images=len(todo), nodes=nodes, mismatches=bad)
+
+
+def tool_search(ctx, tools, specs, drv=None):
     jobs = [(s, tools, os.path.join(ctx.scratch, "img%04d" % i)) for i, s in enumerate(specs)]
     t0 = time.time()
     with ProcessPoolExecutor(max_workers=12) as ex:
@@ -295,7 +332,9 @@ def tool_search(ctx, tools, specs):
                               % (spec["tool"], spec["comp"], spec["bs"], " -e" if spec["exportable"] else "",
                                  " -T" if spec["notail"] else "", spec["shape"], b),
                               dict(kind="tool", spec=spec, violations=r["bad"][:20]))
+    numbering = numbering_tie(ctx, drv, specs, results) if drv else None
     return dict(images=len(specs), images_with_violations=sum(1 for r in results if r["bad"]), totals=agg,
+                numbering_tie=numbering,
                 by_tool={t: sum(1 for s in specs if s["tool"] == t) for t in ("gensquashfs", "tar2sqfs")},
                 by_comp={c: sum(1 for s in specs if s["comp"] == c) for c in toolgen.COMPS})
 
@@ -314,7 +353,22 @@ def run(ctx):
     plain = B.build("plain")
     h = B.compile_harness(info, [os.path.join(HERE, "h_dirmeta.c")], "c03_h_dirmeta")
     hc = B.compile_harness(info, [os.path.join(HERE, "h_comp.c")], "c03_h_comp")
-    drv = core.build_model_driver("C03", "ExtractC03.v", os.path.join(HERE, "driver.ml"))
+    # private copies: vlib.build prunes its cache while other checks build their variants
+    bindir = os.path.join(ctx.scratch, "bin")
+    os.makedirs(bindir, exist_ok=True)
+    tools = {}
+    for name, p in list(plain["tools"].items()) + [("c03_h_dirmeta", h), ("c03_h_comp", hc)]:
+        dst = os.path.join(bindir, name)
+        shutil.copy2(p, dst)
+        tools[name] = dst
+    h, hc = tools["c03_h_dirmeta"], tools["c03_h_comp"]
+    try:
+        drv = core.build_model_driver("C03", "ExtractC03.v", os.path.join(HERE, "driver.ml"))
+    except Exception as e:  # the model no longer compiles/extracts (e.g. a constant changed): proof broke => search
+        drv = None
+        ctx.violation("model-extraction-failed",
+                      "the Coq model of C03 no longer compiles / extracts against the current tree: %s" % (str(e)[-600:],),
+                      dict(kind="proof obligation / model build", detail=str(e)[-3000:]), no_input=True)
     ctx.trusted += [
         "props/C03/h_dirmeta.c, props/C03/driver.ml (command parsing, hex I/O, in-memory sqfs_file_t, toy compressor in C)",
         "props/C03/h_comp.c (re-evaluation of the compressor contract on the real back ends)",
@@ -345,7 +399,7 @@ def run(ctx):
             ctx.coverage["evaluations"] = res["calls"]
             ctx.coverage["rule"] = "replay of compressor contract calls"
         elif kind == "tool":
-            res = tool_search(ctx, plain["tools"], [r["spec"]])
+            res = tool_search(ctx, tools, [r["spec"]], drv)
             ctx.coverage["evaluations"] = 1
             ctx.coverage["rule"] = "replay of one packer run"
         else:
@@ -358,7 +412,7 @@ def run(ctx):
     cl = comp_lines(rnd, ctx.tier)
     cc = comp_contract(ctx, hc, cl)
     specs = toolgen.plan(rnd, ctx.tier)
-    ts = tool_search(ctx, plain["tools"], specs)
+    ts = tool_search(ctx, tools, specs, drv)
 
     ctx.coverage["evaluations"] = comp["cases"] + cc["calls"] + ts["images"]
     ctx.coverage["distinct_nontrivial"] = comp["nontrivial"] + cc["compressed_results"] + ts["images"]
